@@ -252,8 +252,8 @@ type c08CJob struct {
 
 type c08CResult struct {
 	evals, overlapping, slack, unjudged, nonempty int64
-	failure                                      string
-	detail                                       map[string]any
+	failure                                       string
+	detail                                        map[string]any
 }
 
 func c08Concurrent(ctx *vkit.Ctx, cs *vkit.Case) {
